@@ -97,7 +97,7 @@ impl Prop for DtOffset {
     const NAME: &'static str = "C10.datetime";
     const BYTES: usize = 64;
     fn gen(u: &mut Unstructured<'_>) -> arbitrary::Result<Case> {
-        let mut i = gen::inst(u, 2)?;
+        let mut i = gen::inst(u, 1)?;
         let off = gen::offset(u)?;
         if off != 0 && u.coin(1, 2)? {
             let o = off as i64 * 1_000_000_000;
@@ -120,8 +120,8 @@ impl Prop for DtOffset {
         if !c.i.valid() || c.off.abs() > 86_399 || c.off2.abs() > 86_399 {
             return Verdict::Skip("malformed case");
         }
-        if c.i.day < cal::MIN_DAY + 2 || c.i.day > cal::MAX_DAY - 2 {
-            return Verdict::Skip("within 2 days of a range end (unspecified)");
+        if c.i.day < cal::MIN_DAY + 1 || c.i.day > cal::MAX_DAY - 1 {
+            return Verdict::Skip("on an outermost day of the range (unspecified)");
         }
         let i = c.i.i();
         classify(i, c.off, cx);
@@ -389,7 +389,7 @@ pub fn run(env: &mut Env) {
     // seed-independent instants for the offset sweep
     let mut insts: Vec<Inst> = Vec::new();
     let days = [
-        cal::MIN_DAY + 2, cal::MAX_DAY - 2, 0, -1, 1, cal::DAYS_TO_1970, cal::days_from_ymd(2024, 2, 29), cal::days_from_ymd(2023, 12, 31),
+        cal::MIN_DAY + 1, cal::MAX_DAY - 1, cal::MIN_DAY + 2, cal::MAX_DAY - 2, 0, -1, 1, cal::DAYS_TO_1970, cal::days_from_ymd(2024, 2, 29), cal::days_from_ymd(2023, 12, 31),
         cal::days_from_ymd(2024, 1, 1), cal::days_from_ymd(-5, 2, 29), cal::days_from_ymd(-1, 12, 31), cal::days_from_ymd(1, 1, 1),
         cal::days_from_ymd(1900, 2, 28), cal::days_from_ymd(2000, 3, 1), cal::days_from_ymd(9999, 12, 31), cal::days_from_ymd(10_000, 1, 1),
     ];
